@@ -13,6 +13,7 @@ added to every input *before* aggregation yields the firing history; the oracle
 is a functional specification of the aggregate's outcome as a function of that
 history, evaluated after every operation.
 """
+import asyncio
 from collections.abc import Sequence
 
 from twisted.internet import defer
@@ -29,14 +30,20 @@ RUN_WALL_LIMIT_S = 120   # runs take milliseconds; generous because whole-machin
 COMPONENTS = {"real": ["twisted.internet.defer.DeferredList", "twisted.internet.defer.gatherResults",
                        "twisted.internet.defer.race", "twisted.internet.defer.Deferred"],
               "stub": ["order in which inputs fire / are cancelled / get late callbacks (tape)"]}
-RULE = ("run = 1..12 inputs (mostly 1..5; each optionally pre-fired; canceller in {none, noop, fires success, fires failure, raises[DeferredList only]}) "
+RULE = ("run = 1..12 inputs (mostly 1..5; each optionally pre-fired; canceller in {none, noop, fires success, fires failure, raises[DeferredList and "
+        "gatherResults; race only in the RACE_RAISING_CANCELLER_P share]}; what a raising canceller raises is one class per run out of "
+        "Exception subclass / application BaseException subclass / GeneratorExit / asyncio.CancelledError / KeyboardInterrupt / SystemExit) "
         "given to DeferredList(8 flag combinations) / gatherResults(+-consumeErrors) / race - handed over as the caller's list (left alone, or edited "
         "by the caller after the call returned: clear/pop/append/insert/reverse/setitem/slice-assign/del-slice, right away and/or between later operations), "
         "a tuple, a non-list Sequence, or a one-shot iterator [DeferredList/gatherResults] - then tape-chosen operations until every input fired: "
         "fire input ok/fail, cancel input, add late observer, cancel aggregate, edit the caller's list; non-trivial = >=2 inputs, at least one input fired after "
         "aggregation and at least one failure or cancellation occurred")
 ASSUMPTIONS = ["inputs are distinct Deferreds; no operation is issued from inside a callback except what cancellers do to their own Deferred",
-               "a canceller that raises is used only with DeferredList (whose cancel documents catching it)",
+               "a canceller that raises is used with DeferredList and gatherResults (which returns a DeferredList): DeferredList.cancel documents "
+               "cancelling every Deferred in the list and contains whatever a user supplied canceller raises, Exception or not, so cancel() returns "
+               "normally and every other unfired input still receives its cancel(); the input whose canceller raised stays unfired",
+               "race with raising cancellers: RACE_RAISING_CANCELLER_P (module constant, 0.5 of the race runs; precondition of a genuine defect of the tree as "
+               "first examined, REPAIRED in /repo 1895efb; 0.0 = never, only for dev-time comparison)",
                "the aggregate is defined over the Deferreds that were in the sequence when the call was made: what the caller does to its own "
                "list object afterwards changes nothing, and a Deferred that was never handed over (put into that list later) is never cancelled "
                "by the aggregate (DeferredList: upstream test_cancelDeferredListWithOriginalDeferreds; race: its own 'copy the sequence' comment)",
@@ -46,6 +53,22 @@ ASSUMPTIONS = ["inputs are distinct Deferreds; no operation is issued from insid
 
 class Boom(Exception):
     pass
+
+
+class Abort(BaseException):
+    """An application-defined exception that is deliberately not an Exception."""
+
+
+# What a raising canceller raises (one class per run; first = simplest).  DeferredList.cancel documents that it contains whatever a
+# user supplied canceller raises, so the universe is every kind of exception Python code can raise, not just Exception subclasses.
+RAISE_UNIVERSE = [("Boom", Boom, 5), ("Abort", Abort, 2), ("GeneratorExit", GeneratorExit, 1), ("CancelledError", asyncio.CancelledError, 1),
+                  ("KeyboardInterrupt", KeyboardInterrupt, 1), ("SystemExit", SystemExit, 1)]
+RAISE_CLASSES = tuple(c for (_n, c, _w) in RAISE_UNIVERSE)
+
+# Share of the race runs in which inputs may have a canceller that raises.  Before the round-6 repair of /repo (1895efb) race, unlike
+# DeferredList.cancel, had no containment around the d.cancel() calls it makes, so a raising canceller of one loser kept the result from
+# firing and the later losers from being cancelled (fixed finding C04:fires-when-due:race:win, see MUTANTS).
+RACE_RAISING_CANCELLER_P = 0.5
 
 
 class CountingDeferred(defer.Deferred):
@@ -175,10 +198,17 @@ def run(sim):
     else:
         flags = (False, False, False)
     cancel_w = sim.draw_choice([0, 1, 3], "cancel_weight")
+    # gatherResults returns a DeferredList, so its cancel() is DeferredList.cancel; race: see RACE_RAISING_CANCELLER_P
+    raise_w = 1 if kind != "race" else 0
+    if kind == "race" and RACE_RAISING_CANCELLER_P > 0 and sim.draw_bool(RACE_RAISING_CANCELLER_P, "race_raising_cancellers"):
+        raise_w = 1
     plan = []
     for i in range(n):
-        plan.append((sim.draw_weighted([("none", 4), ("noop", 2), ("succ", 2), ("fail", 2), ("raise", 1 if kind == "dl" else 0)], "canceller"),
+        plan.append((sim.draw_weighted([("none", 4), ("noop", 2), ("succ", 2), ("fail", 2), ("raise", raise_w)], "canceller"),
                      sim.draw_weighted([("no", 5), ("ok", 2), ("fail", 2)], "prefire")))
+    raise_name, raise_cls = "Boom", Boom
+    if any(p[0] == "raise" for p in plan):
+        raise_name, raise_cls = sim.draw_weighted([((nm, c), w) for (nm, c, w) in RAISE_UNIVERSE], "canceller_raises")
     chained_ok = sim.draw_bool(0.5, "deferred_shapes")
     # how the inputs are handed over; "list-edited" = the caller's own list, which the caller goes on using afterwards
     passed_as = sim.draw_weighted([("list", 4), ("list-edited", 5), ("tuple", 2), ("sequence", 1),
@@ -188,6 +218,7 @@ def run(sim):
         edit_now_p, edit_w = sim.draw_choice([(0.7, 2), (1.0, 0), (0.0, 3)], "edit_timing")
     sim.config = {"n": n, "kind": kind, "flags": list(flags), "cancel_w": cancel_w,
                   "cancellers": [p[0] for p in plan], "prefire": [p[1] for p in plan], "shapes": chained_ok,
+                  "canceller_raises": raise_name,
                   "passed_as": passed_as, "edit_now_p": edit_now_p, "edit_w": edit_w}
 
     history = []            # (index, ok, payload) in firing order, as seen by the first callback of each input
@@ -196,7 +227,10 @@ def run(sim):
     canceller_calls = [0] * n
     user_cancels = [0] * n
     serial = [0]
-    st = {"agg_cancels": 0, "fired_after": 0, "failures": 0, "cancels": 0, "win_checked": False, "edits": 0}
+    st = {"agg_cancels": 0, "fired_after": 0, "failures": 0, "cancels": 0, "win_checked": False, "edits": 0,
+          # a race result was cancelled while an input with a raising canceller was unfired: that input stays unfired, so the plain Deferred
+          # returned by race ends with CancelledError (Deferred.cancel) - the statement says nothing about the result from then on
+          "race_cancelled_short": False}
     outsiders = []          # Deferreds the caller put into its own list AFTER the aggregate was made: never part of it
 
     def fresh():
@@ -215,7 +249,10 @@ def run(sim):
             elif ck == "fail":
                 d.errback(Boom("ce", i, fresh()))
             elif ck == "raise":
-                raise Boom("canceller-raised", i)
+                sim.fault("canceller_raised")
+                if not issubclass(raise_cls, Exception):
+                    sim.probe("canceller_raised_non_Exception")
+                raise raise_cls("canceller-raised", i)
         return canceller
 
     done = [False] * n      # input i has an outcome (its recording callback ran)
@@ -282,7 +319,9 @@ def run(sim):
     def check_all(snap, op):
         exp = spec(kind, n, flags, history)
         sim.check("fires-once", len(agg_res) <= 1, kind, "aggregate fired %d times" % len(agg_res))
-        if exp is None:
+        if st["race_cancelled_short"]:
+            pass
+        elif exp is None:
             sim.check("no-early-fire", not agg_res, kind,
                       lambda: "aggregate fired with %s but history %r does not warrant it" % (_show(agg_res[0]), [(h[0], h[1]) for h in history]))
         else:
@@ -311,7 +350,7 @@ def run(sim):
                     sim.check("observer-failure", isinstance(r, Failure) and r.value is p, "failure",
                               lambda: "input %d failed with %r, later callback saw %s" % (i, p, _show(r)))
         # race: at the win, every other input is cancelled, the winner is not
-        if kind == "race" and exp is not None and exp[0] == "win" and not st["win_checked"]:
+        if kind == "race" and exp is not None and exp[0] == "win" and not st["win_checked"] and not st["race_cancelled_short"]:
             st["win_checked"] = True
             w = exp[1]
             pos = _first(history, True)
@@ -319,7 +358,8 @@ def run(sim):
             for j in range(n):
                 if j == w:
                     continue
-                sim.check("race-others-done", done[j], "loser", "input %d still unfired after race was won by %d" % (j, w))
+                if plan[j][0] != "raise":       # an input whose canceller raised stays unfired
+                    sim.check("race-others-done", done[j], "loser", "input %d still unfired after race was won by %d" % (j, w))
                 if j in snap["unfired"] and j not in before_win:
                     sim.check("race-cancels-others", inputs[j].cancel_calls > snap["cc"][j], "loser",
                               "input %d was unfired when %d won but received no cancel()" % (j, w))
@@ -422,18 +462,30 @@ def run(sim):
         sim.fault("input_cancel")
         try:
             inputs[i].cancel()
-        except Boom:
-            sim.check("canceller-raise-expected", plan[i][0] == "raise", "input", "cancel() of input %d raised" % i)
+        except RAISE_CLASSES as e:
+            sim.check("canceller-raise-expected", plan[i][0] == "raise" and type(e) is raise_cls, "input",
+                      "cancel() of input %d raised %s" % (i, type(e).__name__))
 
     def op_cancel_agg():
         s = snapshot()
         sim.event("cancel-aggregate", "fired" if s["agg_fired"] else "unfired")
         st["agg_cancels"] += 1
         st["cancels"] += 1
-        with sim.guard("aggregate-cancel-raised", kind):
-            agg.cancel()
+        try:
+            with sim.guard("aggregate-cancel-raised", kind):
+                agg.cancel()
+        except RAISE_CLASSES as e:
+            if isinstance(e, Exception):
+                raise               # the guard has classified it
+            # sim.guard leaves non-Exception BaseExceptions alone (they may be the runner's own); these are the canceller's
+            sim.fail("aggregate-cancel-raised", kind + ":" + type(e).__name__,
+                     "%s raised by the canceller of an input escaped from the aggregate's cancel()" % type(e).__name__)
         if not s["agg_fired"]:
             sim.fault("aggregate_cancel_unfired")
+            if any(plan[j][0] == "raise" for j in s["unfired"]):
+                sim.probe("aggregate_cancel_met_raising_canceller")
+                if kind == "race":
+                    st["race_cancelled_short"] = True
             for j in sorted(s["unfired"]):
                 sim.check("cancel-propagates", inputs[j].cancel_calls > s["cc"][j], kind,
                           "aggregate cancelled while unfired but input %d (unfired) received no cancel()" % j)
@@ -495,4 +547,14 @@ MUTANTS = [
     "defer.py DeferredList.__init__: _deferredList is the caller's list when a list is given (no copy): CAUGHT (cancel-propagates, outsider-cancelled)",
     "defer.py DeferredList.__init__: resultList sized with len(deferredList) (argument, not the copy): CAUGHT (construct-raised:*:iterator)",
     "defer.py DeferredList.__init__: callbacks attached by iterating the argument a second time: CAUGHT (fires-when-due, one-shot iterator)",
+    "defer.py DeferredList.cancel: 'except BaseException' -> 'except Exception' around deferred.cancel(): CAUGHT (aggregate-cancel-raised:dl|gather:"
+    "Abort|GeneratorExit|CancelledError|KeyboardInterrupt|SystemExit) - needs cancellers raising non-Exception BaseExceptions",
+    "defer.py DeferredList.cancel: try/except around deferred.cancel() removed: CAUGHT (aggregate-cancel-raised:dl:Boom, aggregate-cancel-raised:gather:Boom)",
+    "GENUINE DEFECT of the tree as first examined, REPAIRED in /repo 1895efb (precondition let into the RACE_RAISING_CANCELLER_P = 0.5 share of the race "
+    "runs; 0 only for dev-time comparison): race() had no containment around the d.cancel() calls it makes, "
+    "unlike DeferredList.cancel.  Witnesses before the repair: (1) race([d0, Deferred(raising canceller), d2]); d0.callback('win'): the exception leaves the `succeeded` closure "
+    "(defer.py race.succeeded 'd.cancel()') and becomes d0's result, final_result.callback is never reached and d2 is never cancelled "
+    "(fires-when-due:race:win, race-cancels-others:loser).  (2) race([Deferred(raising canceller), e1]).cancel(): the exception leaves cancel(), e1 is not "
+    "cancelled and the result stays unfired (aggregate-cancel-raised:race:<type>, cancel-propagates:race).  Repair: try/except BaseException + "
+    "log.failure around both d.cancel() calls, as in DeferredList.cancel (in `cancel` the result Deferred is then errbacked with CancelledError by Deferred.cancel)",
 ]
